@@ -21,4 +21,4 @@ Deliver, inside {wt}:
  2. a file {wt}/seeded_demo.py - a small standalone program (run as `JAX_PLATFORMS=cpu /venv/bin/python seeded_demo.py` from the worktree root with PYTHONPATH={wt}) that exits 0 on the ORIGINAL code and exits non-zero (assertion failure) WITH your change, demonstrating the property violation through the public API;
  3. a file {wt}/seeded_meta.json with keys: "property" ("{pid}"), "summary" (what you changed), "needs" (what specific input/sequence/configuration is needed for the violation to manifest), "why_tests_pass" (why the existing suite does not notice).
 
-How to check yourself: the interpreter is /venv/bin/python (python 3.12 with jax, tfp, blackjax, pytest installed; the project is installed in editable mode from /repo, so ALWAYS set PYTHONPATH={wt} so that `import liesel` resolves to your worktree - verify with `python -c "import liesel; print(liesel.__file__)"`). Run the relevant parts of the test suite with: cd {wt} && PYTHONPATH={wt} /venv/bin/python -m pytest -q -p no:cacheprovider -x tests/<relevant files> (the full suite takes ~5 minutes: `PYTHONPATH={wt} /venv/bin/python -m pytest -q -p no:cacheprovider > /tmp/out_{pid}.log 2>&1; tail -5 /tmp/out_{pid}.log` - always redirect pytest output to a file, some tests print huge lines). Confirm (a) the demo passes with `git stash` (original code) and fails with your change, (b) the full test suite passes with your change. There is no network access. When done, reply with a short summary: the diff (git diff), what is needed to manifest, and the test results you observed.""")
+How to check yourself: the interpreter is /venv/bin/python (python 3.12 with jax, tfp, blackjax, pytest installed; the project is installed in editable mode from /repo, so ALWAYS set PYTHONPATH={wt} so that `import liesel` resolves to your worktree - verify with `python -c "import liesel; print(liesel.__file__)"`). Run the relevant parts of the test suite with: cd {wt} && PYTHONPATH={wt} /venv/bin/python -m pytest -q -p no:cacheprovider -x tests/<relevant files> (the full suite takes ~5 minutes: `PYTHONPATH={wt} /venv/bin/python -m pytest -q -p no:cacheprovider > /tmp/out_{pid}.log 2>&1; tail -5 /tmp/out_{pid}.log` - always redirect pytest output to a file, some tests print huge lines). NEVER use `git stash` (the stash is shared between worktrees of this repository and other people work in sibling worktrees); to test the original code use `git diff > /tmp/my_{pid}.diff && git apply -R /tmp/my_{pid}.diff`, and `git apply /tmp/my_{pid}.diff` to restore your change. Confirm (a) the demo passes on the original code and fails with your change, (b) the full test suite passes with your change. There is no network access. When done, reply with a short summary: the diff (git diff), what is needed to manifest, and the test results you observed.""")
